@@ -1,0 +1,32 @@
+//go:build verif
+
+package text
+
+import (
+	"fmt"
+	"io"
+	"log"
+	"os"
+
+	"github.com/go-text/typesetting/fontscan"
+)
+
+// VerifC01NewGotext builds a go-text font configuration from the given font files only
+// (no system scan, no cache directory), so that the second text engine can be exercised offline.
+func VerifC01NewGotext(files []string) (*FontConfigurationGotext, error) {
+	fm := fontscan.NewFontMap(log.New(io.Discard, "", 0))
+	n := 0
+	for _, f := range files {
+		fh, err := os.Open(f)
+		if err != nil {
+			continue
+		}
+		if err := fm.AddFont(fh, f, ""); err == nil {
+			n++
+		}
+	}
+	if n == 0 {
+		return nil, fmt.Errorf("no font could be loaded for the go-text engine")
+	}
+	return NewFontConfigurationGotext(fm), nil
+}
